@@ -18,9 +18,12 @@ import (
 )
 
 var (
-	globalRegistryMutex sync.RWMutex
+	globalRegistryMutex registryMutex
 	globalRegistry      map[string]reflect.Value
 )
+
+// registryMutex is sync.RWMutex (see simhook_off.go).
+var _ sync.Locker = (*registryMutex)(nil)
 
 // An Extension describes custom functionality added to a
 // JSONata expression.
@@ -106,11 +109,9 @@ func Compile(expr string) (*Expr, error) {
 		node: node,
 	}
 
-	simLockWait(&globalRegistryMutex, false)
 	globalRegistryMutex.RLock()
 	e.updateRegistry(globalRegistry)
 	globalRegistryMutex.RUnlock()
-	simYield("compile.unlocked", nil)
 
 	return e, nil
 }
@@ -345,7 +346,6 @@ func processVars(vars map[string]interface{}) (map[string]reflect.Value, error) 
 
 func updateGlobalRegistry(values map[string]reflect.Value) {
 
-	simLockWait(&globalRegistryMutex, true)
 	globalRegistryMutex.Lock()
 
 	for name, v := range values {
@@ -357,7 +357,6 @@ func updateGlobalRegistry(values map[string]reflect.Value) {
 	}
 
 	globalRegistryMutex.Unlock()
-	simYield("register.unlocked", nil)
 }
 
 func validName(s string) bool {
